@@ -893,7 +893,12 @@ func (ex *Exec) evalCall(st *State, call *ast.CallExpr) Val {
 		recv = ex.evalRecv(st, sel.X, sig.Recv().Type())
 	}
 	if strings.HasPrefix(key, "github.com/reilabs/gnark-lean-extractor/v2/abstractor.Call") {
-		return ex.callGadget(st, call)
+		if len(ex.ct.Asserts) > 0 {
+			ex.ghostAsserts([]*State{st}, "before:"+f.Name(), call.Pos(), call)
+		}
+		res := ex.callGadget(st, call)
+		ex.afterCallAsserts(st, f.Name(), nil, nil, res, call)
+		return res
 	}
 	args := ex.evalArgs(st, call, sig)
 	if len(ex.ct.Asserts) > 0 {
@@ -935,7 +940,9 @@ func (ex *Exec) evalCall(st *State, call *ast.CallExpr) Val {
 		}
 	}
 	if ct := ex.prog.Contracts.ByKey[key]; ct != nil {
-		return ex.applyContract(st, ct, f, recv, args, call)
+		res := ex.applyContract(st, ct, f, recv, args, call)
+		ex.afterCallAsserts(st, f.Name(), recv, args, res, call)
+		return res
 	}
 	if fi := ex.prog.Funcs[key]; fi != nil {
 		return ex.inlineCall(st, fi, recv, args, call)
@@ -949,7 +956,29 @@ func (ex *Exec) evalCall(st *State, call *ast.CallExpr) Val {
 		// and contracted helpers may be called
 		ex.fail("determinism", ex.site("determinism"), "circuit code calls "+key+", which is outside the modelled API (time, randomness, I/O and unknown libraries would make the emitted constraints depend on more than the dimensions)", call)
 	}
-	ex.note("unmodelled external call %s: result unconstrained, no side effects assumed", key)
+	ex.note("unmodelled external call %s: result unconstrained; ghost state of its receiver and of objects passed by pointer is havoced, no other side effects assumed", key)
+	// conservative frame for unknown library calls: the ghost state of the receiver object and of opaque objects
+	// passed by pointer becomes unknown
+	havocObj := func(v Val) {
+		switch x := v.(type) {
+		case *ObjV:
+			if len(x.Ghost) > 0 {
+				ex.replaceObj(st, x, ex.havocLike(st, x, nil, "h."+f.Name()).(*ObjV))
+			}
+		case *RefV:
+			if !x.Nil && x.Cell != nil && len(x.Path) == 0 {
+				if o, ok := st.store[x.Cell].(*ObjV); ok && len(o.Ghost) > 0 {
+					st.store[x.Cell] = ex.havocLike(st, o, nil, "h."+f.Name())
+				}
+			}
+		}
+	}
+	if recv != nil {
+		havocObj(recv)
+	}
+	for _, a := range args {
+		havocObj(a)
+	}
 	ex.nullableResults = true
 	res := ex.freshResult(st, sig, "r."+f.Name())
 	ex.nullableResults = false
@@ -1330,4 +1359,22 @@ func intLeaves(cl *ast.CompositeLit) bool {
 		}
 	}
 	return true
+}
+
+// afterCallAsserts runs assert@after:<callee> clauses (result visible as `res`).
+func (ex *Exec) afterCallAsserts(st *State, name string, recv Val, args []Val, res Val, call *ast.CallExpr) {
+	if len(ex.ct.Asserts) == 0 {
+		return
+	}
+	extra := map[string]Val{"res": res}
+	for i, a := range args {
+		extra[fmt.Sprintf("arg%d", i)] = a
+	}
+	if recv != nil {
+		extra["recv"] = recv
+	}
+	saved := ex.assertExtra
+	ex.assertExtra = extra
+	ex.ghostAsserts([]*State{st}, "after:"+name, call.End(), call)
+	ex.assertExtra = saved
 }
